@@ -184,3 +184,7 @@ impl<W: io::Write> fmt::Write for WriteWrapper<W> {
             })
     }
 }
+
+#[cfg(kani)]
+#[path = "/verif/kani/output.rs"]
+mod verif_kani;
